@@ -326,7 +326,7 @@ static Task *pick_next() {
   for (;;) {
     if (R->aborted) return nullptr;
     std::vector<Task *> en;
-    for (Task *t : R->tasks) if (is_enabled(t)) en.push_back(t);
+    for (Task *t : R->tasks) if (is_enabled(t)) en.push_back(t); else t->passed_over = 0;
     if (en.empty()) {
       // release spin-blocked tasks
       bool any = false;
@@ -377,6 +377,19 @@ static Task *pick_next() {
         idx = choose(ST_SCHED, (uint32_t)cand.size());
       } else {
         const Config &cf = R->cfg;
+        // Fairness every real scheduler gives: (a) sched_yield hands the processor to somebody else when anybody can run;
+        // (b) nobody who can run waits for ever - a task passed over for STARVE_STEPS scheduling points runs next.
+        // Without this a polling loop (lock, look, unlock, yield) starves the very task it is waiting for under PCT / run-to-block.
+        static const uint32_t STARVE_STEPS = 4000;
+        Task *forced = nullptr;
+        for (Task *t : cand) if (t != c && t->passed_over > STARVE_STEPS && (!forced || t->passed_over > forced->passed_over)) forced = t;
+        if (!forced && cur_en && c->yielded) {
+          if (cf.policy == POL_PCT) c->prio = --R->pct_low;
+          else forced = cand[1 + R->rng.below((uint32_t)cand.size() - 1)];
+        }
+        if (c) c->yielded = false;
+        if (forced) { for (size_t i = 0; i < cand.size(); i++) if (cand[i] == forced) idx = (uint32_t)i; }
+        else
         switch (cf.policy) {
         case POL_RANDOM:
           if (cur_en) { if (R->rng.unit() < cf.switch_p) idx = 1 + R->rng.below((uint32_t)cand.size() - 1); }
@@ -406,6 +419,7 @@ static Task *pick_next() {
     }
     Task *n = cand[idx];
     if (n != c) R->res.switches++;
+    if (!R->replay) { for (Task *t : cand) t->passed_over++; n->passed_over = 0; }
     return n;
   }
 }
